@@ -56,6 +56,12 @@ CHECKS["C12"] = (
     "Expected inventory is hand-written per letter; functions nested in functions and un-annotated overload implementations are don't-care.",
     "6/C12",
 )
+CHECKS["C10"] = (
+    E1,
+    TREES + " Each packed run is executed under naming conversion off/on with the harness recording every (target path, text) handed to create_stub_files and every file appearing in the scratch directory: all files lie in OUT, are .sdsstub or '<src>__api.json', directory path == announced module path segment by segment, base name == module (alias) or single declaration without leading underscores, no two different texts for one path, placeholder files do not overwrite module stubs. Plus 7 inputs constructed to collide and 8 console-script runs over source/output path spellings (absolute, relative, trailing slash, '..', pre-existing or nested new output directory, source given as parent directory).",
+    "Write targets are observed by wrapping create_stub_files from the harness; unparsable stubs are C02's and skipped here.",
+    "6/C10",
+)
 NOT_YET = {}  # id -> reason (filled for properties without a check)
 
 props = [json.loads(l) for l in open(V / "properties.jsonl")]
